@@ -14,6 +14,9 @@
 #include "operand.h"
 #include "register.h"
 
+#ifdef TEAKRA_VERIF
+struct TeakraVerifAccess; // verification hook: read/seed private state
+#endif
 namespace Teakra {
 
 class UnimplementedException : public std::runtime_error {
@@ -22,6 +25,9 @@ public:
 };
 
 class Interpreter {
+#ifdef TEAKRA_VERIF
+    friend struct ::TeakraVerifAccess;
+#endif
 public:
     Interpreter(CoreTiming& core_timing, RegisterState& regs, MemoryInterface& mem)
         : core_timing(core_timing), regs(regs), mem(mem) {}
